@@ -112,10 +112,29 @@ def polyChainsOp (args : List String) : Option String :=
     let r := polyChains nfit (dc != 0) nc data (fun k => cl.getD k [])
     pure (fChains (r.1, r.2.1) ++ " " ++ fN r.2.2)) args
 
+/-- one prior's back-transform on the wire: `0` identity, `1` `10**x`, `2` `exp x`, `3 a b` `a*x + b` -/
+def backP : P (Back Float) := do
+  let k ← nat
+  match k with
+  | 0 => pure .identity
+  | 1 => pure .pow10
+  | 2 => pure .expNat
+  | 3 => do let a ← flt; let b ← flt; pure (.affine a b)
+  | _ => failure
+
+/-- `c09.modelpoint backs vectors` → per sampled vector the model values `update_model` writes
+    (`Posterior.modelPoint`) -/
+def modelPointOp (args : List String) : Option String :=
+  run (do
+    let bs ← listOf backP
+    let vs ← listOf (listOf flt)
+    if vs.any (fun v => v.length ≠ bs.length) then failure else pure ()
+    pure (fList (fun v => fList fF (modelPoint bs v)) vs)) args
+
 def ops : List Op :=
   [("c09.quantile", quantileOp), ("c09.summary", summaryOp), ("c09.argmax", argmaxOp), ("c09.wmean", wmeanOp),
    ("c09.interp", interpOp), ("c09.sort", sortOp), ("c09.cdf", cdfOp), ("c09.store", storeOp),
    ("c09.restore", restoreOp), ("c09.nestsingle", nestSingleOp), ("c09.nestmodes", nestModesOp),
-   ("c09.polychains", polyChainsOp)]
+   ("c09.polychains", polyChainsOp), ("c09.modelpoint", modelPointOp)]
 
 end Taurex.Ops.C09
